@@ -105,7 +105,7 @@ func genValidatorOp(t *rapid.T) Op {
 	case "vdeposit", "vwithdraw":
 		op.N = amount(t)
 	case "vstatus":
-		op.M = rapid.IntRange(0, 1).Draw(t, "m")
+		op.M = rapid.IntRange(0, 3).Draw(t, "m") // bit0: status, bit1: in-place calling style
 	case "dadd", "dsub":
 		op.D = rapid.IntRange(0, NDel-1).Draw(t, "d")
 		op.N = amount(t)
@@ -215,7 +215,7 @@ func GenOps(t *rapid.T, cfg GenCfg) []Op {
 		case w < wSnap+wTx+wCommit:
 			return Op{K: "commit", M: rapid.IntRange(0, 2).Draw(t, "m")}
 		case w < wSnap+wTx+wCommit+wCopy:
-			return Op{K: "copy", M: rapid.IntRange(0, 1).Draw(t, "m")}
+			return Op{K: "copy", M: rapid.IntRange(0, 3).Draw(t, "m")} // bit0: which side goes on, bit1: before Finalise
 		case w < wSnap+wTx+wCommit+wCopy+wStaking:
 			return genStakingOp(t)
 		case w < wSnap+wTx+wCommit+wCopy+wStaking+wAcct:
